@@ -3,6 +3,7 @@
     in Bridge.v) and the laws of the (A3,I2) naming quirk for every 5-character name. *)
 From Coq Require Import Ascii String List Bool Arith ZArith NArith Lia.
 From PTBase Require Import Exn PyStr PyNum PyVal.
+From Gen Require Import GenPad.
 Import ListNotations.
 Open Scope char_scope.
 
@@ -38,7 +39,9 @@ Definition valid_name (n : str) : res bool :=
     else Ok false
   else Ok false.
 
-Definition padstring (s : str) : str := ljust 80 s.
+(** [padstring(s, length = 80)]: the default length is read from the source on every run (Gen/GenPad.v) *)
+Definition pad_len : nat := Z.to_nat padstring_default_length.
+Definition padstring (s : str) : str := ljust pad_len s.
 
 (** ** five-character names *)
 Definition fix5 (n : str) : str :=
